@@ -128,7 +128,7 @@ func TestC05(t *testing.T) {
 			}
 		case c.I == 256:
 			// the repo's own file, through the real reader, and a write/read round trip of generated maps
-			path := "/repo/topics/testdata/topics.yaml"
+			path := repoDir() + "/topics/testdata/topics.yaml"
 			cfg, err := topics.ReadPredefinedTopicsFile(path)
 			if err != nil {
 				c.Inconclusive("cannot read " + path + ": " + err.Error())
